@@ -221,6 +221,8 @@ def run(ctx):
     ngp = gradpattern.replay(ctx, ["rootfinder", "equilibrium", "minimize"], "rootgrad")
     from vlib import objstate
     ngp += objstate.replay(ctx, ["rootfinder", "equilibrium", "minimize"], "rootgrad")
+    from vlib import bwdreuse
+    ngp += bwdreuse.replay(ctx, ["rootfinder", "equilibrium", "minimize"], "rootgrad", sample=(120 if ctx.tier == "thorough" else 20))
     from vlib import bckhistory
     ngp += bckhistory.replay(ctx, ["rootfinder", "equilibrium", "minimize"], "rootgrad", 3 if ctx.tier == "thorough" else 2)
     ctx.replayed = ne + ngp
